@@ -9,7 +9,7 @@ Open Scope Z_scope.
    watermark wait at the end of the first service(), Connection: close on the second): it
    ends in a quiescent state, closed, with nothing pending *)
 Definition cfg_example : cfg := mkCfg 0 50 120 false.
-Definition sched_example : list choice := [CW 0; CW 1; CIo; CIo; CIo; CIo; CIo; CIo; CIo; CClient [IReq; IReq]; CIo; CIoRecv true false; CIo; CIo; CIo; CIo; CIo; CIo; CIo; CIo; CIo; CIo; CIo; CIo; CIo; CIo; CIo; CIo; CIo; CW 0; CW 0; CW 0; CWApp 0 (Some 95) false; CW 0; CW 0; CW 0; CW 0; CW 0; CW 0; CWSend 0 (SOk 20); CWSend 0 SZero; CW 0; CW 0; CW 0; CWApp 0 (Some 10) false; CW 0; CW 0; CW 0; CW 0; CW 0; CW 0; CWSend 0 (SOk 85); CW 0; CW 0; CW 0; CWApp 0 (Some 300) false; CW 0; CW 0; CW 0; CW 0; CW 0; CW 0; CWSend 0 (SOk 90); CWSend 0 SZero; CW 0; CW 0; CW 0; CWApp 0 None false; CW 0; CW 0; CW 0; CW 0; CWSend 0 (SOk 210); CW 0; CW 0; CW 0; CW 0; CW 0; CW 0; CW 0; CW 0; CW 0; CW 0; CW 0; CW 0; CW 0; CW 0; CWApp 0 (Some 112) false; CW 0; CW 0; CW 0; CW 0; CW 0; CW 0; CWSend 0 (SOk 112); CW 0; CW 0; CW 0; CWApp 0 (Some 5) false; CW 0; CW 0; CW 0; CW 0; CW 0; CW 0; CW 0; CWApp 0 None true; CW 0; CW 0; CW 0; CW 0; CW 0; CW 0; CW 0; CW 1; CIo; CIo; CIo; CIo; CIo; CIo; CIo; CIoSend (SOk 5); CIo; CIo; CIo; CIo; CIo; CIo; CIo; CIo; CIo; CIo; CIoClose false; CIo; CIo; CIo; CIo].
+Definition sched_example : list choice := [CW 0; CW 1; CIo; CIo; CIo; CIo; CIo; CIo; CIo; CClient [IReq; IReq]; CIo; CIoRecv true false; CIo; CIo; CIo; CIo; CIo; CIo; CIo; CIo; CIo; CIo; CIo; CIo; CIo; CIo; CIo; CIo; CIo; CW 0; CW 0; CW 0; CWApp 0 (Some 95) false; CW 0; CW 0; CW 0; CW 0; CW 0; CW 0; CWSend 0 (SOk 20); CWSend 0 SZero; CW 0; CW 0; CW 0; CWApp 0 (Some 10) false; CW 0; CW 0; CW 0; CW 0; CW 0; CW 0; CWSend 0 (SOk 85); CW 0; CW 0; CW 0; CWApp 0 (Some 300) false; CW 0; CW 0; CW 0; CW 0; CW 0; CW 0; CWSend 0 (SOk 90); CWSend 0 SZero; CW 0; CW 0; CW 0; CWApp 0 None false; CW 0; CW 0; CW 0; CW 0; CWSend 0 (SOk 210); CW 0; CW 0; CW 0; CW 0; CW 0; CW 0; CW 0; CW 0; CW 0; CW 0; CW 0; CW 0; CW 0; CW 0; CWApp 0 (Some 112) false; CW 0; CW 0; CW 0; CW 0; CW 0; CW 0; CWSend 0 (SOk 112); CW 0; CW 0; CW 0; CWApp 0 (Some 5) false; CW 0; CW 0; CW 0; CW 0; CW 0; CW 0; CW 0; CWApp 0 None true; CW 0; CW 0; CW 0; CW 0; CW 0; CW 0; CW 0; CW 1; CIo; CIo; CIo; CIo; CIo; CIo; CIo; CIo; CIo; CIoSend (SOk 5); CIo; CIo; CIo; CIo; CIo; CIo; CIo; CIo; CIo; CIo; CIoClose false; CIo; CIo; CIo; CIo].
 
 Lemma example_run :
   let s := run (step cfg_example) (init 2) sched_example in
